@@ -805,20 +805,23 @@ func mergeRule(c *Ctx, rule string) {
 		c.Undec(rule, "mergeIPMap(remote, current)", p.Pos(fn.Decl), fn.Key(), "two map parameters", "signature changed")
 		return
 	}
-	// the lookup `_, ok := M[k]` inside a loop body over the other map
-	okOf := func(body *ast.BlockStmt, m types.Object) string {
-		name := ""
+	// the lookup `_, ok := M[k]` inside a loop body over the other map (the flag object, whatever its name and scope)
+	okOf := func(body *ast.BlockStmt, m types.Object) types.Object {
+		var flag types.Object
 		ast.Inspect(body, func(k ast.Node) bool {
 			as, ok := k.(*ast.AssignStmt)
 			if !ok || len(as.Lhs) != 2 || len(as.Rhs) != 1 {
 				return true
 			}
 			if ix, ok := ast.Unparen(as.Rhs[0]).(*ast.IndexExpr); ok && identObj(info, ix.X) == m {
-				name = exprString(as.Lhs[1])
+				flag = identObj(info, as.Lhs[1])
 			}
 			return true
 		})
-		return name
+		return flag
+	}
+	absent := func(flag types.Object) func(e *FactEngine) (*Formula, error) {
+		return func(e *FactEngine) (*Formula, error) { return mkNot(e.Cond(identFor(info, flag))), nil }
 	}
 	nDel, nAdd := 0, 0
 	ast.Inspect(fn.Decl.Body, func(nd ast.Node) bool {
@@ -835,12 +838,12 @@ func mergeRule(c *Ctx, rule string) {
 					return true
 				}
 				nDel++
-				if ok == "" || ok == "_" {
+				if ok == nil {
 					c.Undec(rule, "mergeIPMap: deletion decided by the cloud's answer", p.Pos(call), fn.Key(), "_, ok := remote[k]", "lookup not found")
 					return true
 				}
-				c.Require(rule, "mergeIPMap: only addresses the cloud no longer reports are deleted", fn, call, "!"+ok, nil)
-				c.RequireReached(rule, "mergeIPMap: every address the cloud no longer reports is deleted", fn, rs.Body, call, "!"+ok, nil)
+				c.RequireF(rule, "mergeIPMap: only addresses the cloud no longer reports are deleted", fn, call, "!(key reported by the cloud)", absent(ok))
+				c.RequireReachedF(rule, "mergeIPMap: every address the cloud no longer reports is deleted", fn, rs.Body, call, "!(key reported by the cloud)", absent(ok))
 				return true
 			})
 		case remote:
@@ -855,12 +858,12 @@ func mergeRule(c *Ctx, rule string) {
 					return true
 				}
 				nAdd++
-				if ok == "" || ok == "_" {
+				if ok == nil {
 					c.Undec(rule, "mergeIPMap: addition decided by the record", p.Pos(as), fn.Key(), "_, ok := current[k]", "lookup not found")
 					return true
 				}
-				c.Require(rule, "mergeIPMap: an entry the record already has is never stored over", fn, as, "!"+ok, nil)
-				c.RequireReached(rule, "mergeIPMap: every reported address the record lacks is added", fn, rs.Body, as, "!"+ok, nil)
+				c.RequireF(rule, "mergeIPMap: an entry the record already has is never stored over", fn, as, "!(key present in the record)", absent(ok))
+				c.RequireReachedF(rule, "mergeIPMap: every reported address the record lacks is added", fn, rs.Body, as, "!(key present in the record)", absent(ok))
 				return true
 			})
 		}
